@@ -1618,7 +1618,10 @@ static void CodeBINCLUDE(Word Index) {
                     return;
                 }
             }
-            if (!ChkPC(EProgCounter() + Len - 1)) {
+            /* the file's bytes fill address units of Granularity() bytes each (a last,
+               incomplete one is filled up with zeros): count and write units, not bytes */
+
+            if (!ChkPC(EProgCounter() + ((Len + Granularity() - 1) / Granularity()) - 1)) {
                 WrError(ErrNum_AdrOverflow);
             } else {
                 errno = 0;
@@ -1633,7 +1636,10 @@ static void CodeBINCLUDE(Word Index) {
                     errno = 0;
                     RLen  = fread(BAsmCode, 1, Curr, F);
                     ChkIO(ErrNum_FileReadError);
-                    CodeLen = RLen;
+                    if (RLen % Granularity()) {
+                        memset(BAsmCode + RLen, 0, Granularity() - (RLen % Granularity()));
+                    }
+                    CodeLen = (RLen + Granularity() - 1) / Granularity();
                     WriteBytes();
                     PCs[ActPC] += CodeLen;
                     Rest -= RLen;
